@@ -47,6 +47,8 @@ DIFFERENT = ["zeta_int9"]
 STATES = ["equivalent", "different", "diff_default", "diff_extra", "diff_tail_missing", "diff_literal_short", "missing", "empty"]
 # the target holds the truth's interface but its docstring is in another style (as `doctrans` leaves it): class and method targets
 STYLE_STATES = ["equivalent_google", "equivalent_numpydoc"]
+# a class target laid out attribute(s), method, attribute: the truth's attributes, then a method, then one attribute more (class targets only)
+LAYOUT_STATES = ["diff_method_between"]
 
 PRE = 'import os\n\n\ndef unrelated_before(q=1):\n    """Unrelated."""\n    return q\n\n\n'
 POST = '\n\nclass UnrelatedAfter(object):\n    """Unrelated."""\n\n    k: int = 3\n'
@@ -119,6 +121,10 @@ def cases(tier, seed):
                 if any(st.startswith("diff_") and variant(t, st) is None for st in (sa, sb)):
                     continue  # that near miss does not exist for this interface
                 yield dict(truth=truth, iface=t, states={others[0]: sa, others[1]: sb})
+            for i_cls, other_state in itertools.product((0, 1), ("equivalent", "missing", "different")):
+                if others[i_cls] == "class":
+                    st = {others[i_cls]: "diff_method_between", others[1 - i_cls]: other_state}
+                    yield dict(truth=truth, iface=t, states=st)
             for sa, sb in itertools.product(STYLE_STATES + ["equivalent"], repeat=2):
                 if (sa, sb) != ("equivalent", "equivalent") and not (sa in STYLE_STATES and others[0] == "argparse_function") and not (sb in STYLE_STATES and others[1] == "argparse_function"):
                     yield dict(truth=truth, iface=t, states={others[0]: sa, others[1]: sb})
@@ -215,6 +221,16 @@ def run(case):
             p = os.path.join(d, FILES[k])
             if st == "missing":
                 initial[k] = None
+                continue
+            if st == "diff_method_between":
+                src = render_target(k, variant(case["iface"], "diff_extra"))
+                lines = src.split("\n")
+                at = next(i for i, l in enumerate(lines) if l.strip().startswith("omega"))
+                lines[at:at] = ["    def helper(self):", '        """Help."""', "        return 1", ""]
+                src = "\n".join(lines)
+                initial[k] = src
+                with open(p, "wt") as f:
+                    f.write(src)
                 continue
             src = "" if st == "empty" else render_target(k, T, st.split("_")[1]) if st in STYLE_STATES else render_target(k, T if st == "equivalent" else D if st == "different" else variant(case["iface"], st))
             initial[k] = src
